@@ -142,6 +142,9 @@ FIRST = {
  'C18j': ('missed', 'questions of responses parsed through a lenient conversion: unsupported QTYPEs accepted, ANY becomes Unknown(255); every QTYPE code x query / response x opcodes added'),
  'C19j': ('missed', 'attributes() appends strings without = to a preceding 255-byte key=value string; 250..=255-byte strings next to short strings in every order, and as map entries next to value-less keys'),
  'C20j': ('missed', 'a purge in the 5-second refresh poll re-inserts live cached records with a fresh lease; 10.4 s background scenario (TTL 2 and TTL 8 peers) added to C20'),
+ # round 11 (six seeds, 12-minute agents, told everything incl. the round-10 additions; first encounter: commit 434fc99, both build profiles; seeded/_results/first_encounter_round11.txt)
+ 'C10k': ('missed', 'KX gained a compressing writer: the exchanger becomes a pointer when its name was written earlier; C10 decoded the compressed build (a pointer decodes to the same name) but never laid the RDATA next to the RFC bytes with shared names on the wire; verbatim RDLENGTH+RDATA oracle behind questions carrying the same names added for every no-compression type'),
+ 'C18k': ('missed', 'match_qtype lets an RRSIG match the type it covers; record content in the match matrix was one fixed tuple (type covered 258); every 16-bit RDATA field and NSEC bitmap bit now takes every assigned type code and question-only code'),
 }
 def load_jsonl(pattern):
     out = {}
